@@ -4,33 +4,38 @@ import DL.Lemmas.CFSound
 namespace DL.CF
 
 /-- `visit_stmt_or_block` keeps the invariant (it marks `break`/`continue` statements with `End::Break`) -/
-theorem sob_ok (live : Bool) (s : Stmt) (a a1 : A) (h : PostS live s a a1) : PostS live s a (sobTail s a1) := by
+theorem sob_ok (live : Bool) (ls : List Id) (s : Stmt) (a a1 : A) (h : PostS live ls s a a1) : PostS live ls s a (sobTail s a1) := by
   unfold sobTail
   by_cases hb : s.isBreakOrContinue = true
   · simp only [hb, if_true]
-    have hn : (s.compl []).n = false := by
+    have hn : (s.compl ls).n = false := by
       cases s <;> simp [Stmt.isBreakOrContinue] at hb <;> rename_i p l <;> cases l <;> simp [Stmt.compl]
-    refine ⟨⟨?_, ?_, ?_, ?_, ?_, ?_, ?_, ?_⟩, ?_⟩
+    refine ⟨⟨?_, ?_, ?_, ?_, ?_, ?_, ?_, ?_, ?_, ?_, ?_⟩, ?_⟩
     · intro _; simp [hn]
     · intro hh; rw [markAsEnd_foundBreak]; exact h.p2 hh
     · intro hh; rw [markAsEnd_foundContinue]; exact h.p2c hh
     · intro hh; rw [markAsEnd_foundBreak]; exact h.monoB hh
     · intro hh; rw [markAsEnd_foundContinue]; exact h.monoC hh
-    · unfold FB; rw [markAsEnd_foundBreak]; exact h.fb
+    · intro hh; rw [markAsEnd_foundContinue]; exact h.p2l hh
     · intro q hq hu; rw [markAsEnd_ur] at hu; exact h.p3 q hq hu
+    · intro q hq hu; rw [markAsEnd_ur] at hu; exact h.p3i q hq hu
     · intro q hq
       have : q ≠ s.pos := fun e => hq (e ▸ s.pos_mem)
       rw [markAsEnd_info_other _ _ _ _ this]; exact h.frame q hq
-    · intro _; simp [hn]
+    · intro hh; rw [markAsEnd_mayThrow]; exact h.monoT hh
+    · intro hh; rw [markAsEnd_mayThrow]; exact h.pT hh
+    · intro _ _; simp [hn]
   · simp only [hb, Bool.false_eq_true, if_false]; exact h
 
 /-- sequencing two parts: `x` then (when `x` completes normally) `y` -/
-theorem seq_ok (live : Bool) (ps qs : List Nat) (cx cy : Compl) (rx ry : Nat → Bool) (a a1 a2 : A)
-    (hx : PostL live ps cx rx a a1) (hy : PostL (live && cx.n) qs cy ry a1 a2)
+theorem seq_ok (live : Bool) (us vs ps qs : List Nat) (cx cy : Compl) (rx ry ix iy : Nat → Bool) (a a1 a2 : A)
+    (hx : PostL live us ps cx rx ix a a1) (hy : PostL (live && cx.n) vs qs cy ry iy a1 a2)
     (hdisj : ∀ p, p ∈ ps → p ∈ qs → False)
-    (hrx : ∀ p, p ∉ ps → rx p = false) (hry : ∀ p, p ∉ qs → ry p = false) :
-    PostL live (ps ++ qs) (cx.seq cy) (fun p => rx p || (cx.n && ry p)) a a2 := by
-  refine ⟨?_, ?_, ?_, ?_, ?_, ?_, ?_, ?_⟩
+    (hus : ∀ p, p ∈ us → p ∈ ps) (hvs : ∀ p, p ∈ vs → p ∈ qs)
+    (hrx : ∀ p, p ∉ ps → rx p = false) (hry : ∀ p, p ∉ qs → ry p = false)
+    (hix : ∀ p, p ∉ ps → ix p = false) (hiy : ∀ p, p ∉ qs → iy p = false) :
+    PostL live (us ++ vs) (ps ++ qs) (cx.seq cy) (fun p => rx p || (cx.n && ry p)) (fun p => ix p || iy p) a a2 := by
+  refine ⟨?_, ?_, ?_, ?_, ?_, ?_, ?_, ?_, ?_, ?_, ?_⟩
   · intro hst; have := hy.p1 hst; simp only [seq_n]; revert this; cases live <;> cases cx.n <;> simp
   · intro hb
     simp only [seq_b] at hb
@@ -48,97 +53,39 @@ theorem seq_ok (live : Bool) (ps qs : List Nat) (cx cy : Compl) (rx ry : Nat →
       revert hc hxc; cases live <;> cases cx.c <;> cases cx.n <;> simp
   · intro hb; exact hy.monoB (hx.monoB hb)
   · intro hc; exact hy.monoC (hx.monoC hc)
-  · exact hy.fb
+  · intro hc
+    simp only [seq_hasCl] at hc
+    cases hxc : (live && cx.hasCl) with
+    | true => exact hy.monoC (hx.p2l hxc)
+    | false =>
+      apply hy.p2l
+      revert hc hxc; cases live <;> cases cx.hasCl <;> cases cx.n <;> simp
   · intro p hp hu
     rcases List.mem_append.mp hp with hps | hpq
-    · have hnq : p ∉ qs := fun hq => hdisj p hps hq
+    · have hnq : p ∉ qs := fun hq => hdisj p (hus p hps) hq
       rw [ur_eq_of_info_eq (hy.frame p hnq)] at hu
       have := hx.p3 p hps hu
       simp only [hry p hnq, Bool.and_false, Bool.or_false]; exact this
-    · have hnp : p ∉ ps := fun hp' => hdisj p hp' hpq
+    · have hnp : p ∉ ps := fun hp' => hdisj p hp' (hvs p hpq)
       have := hy.p3 p hpq hu
       simp only [hrx p hnp, Bool.false_or]
       revert this; cases live <;> cases cx.n <;> simp
+  · intro p hp hu
+    rcases List.mem_append.mp hp with hps | hpq
+    · have hnq : p ∉ qs := fun hq => hdisj p (hus p hps) hq
+      rw [ur_eq_of_info_eq (hy.frame p hnq)] at hu
+      simp [hx.p3i p hps hu, hiy p hnq]
+    · have hnp : p ∉ ps := fun hp' => hdisj p hp' (hvs p hpq)
+      simp [hy.p3i p hpq hu, hix p hnp]
   · intro q hq
     rw [hy.frame q (fun h => hq (List.mem_append.mpr (Or.inr h))), hx.frame q (fun h => hq (List.mem_append.mpr (Or.inl h)))]
-
-end DL.CF
-
-namespace DL.CF
-
-mutual
-theorem Stmt.reach_mem : ∀ (s : Stmt) (p : Nat), s.inF = true → s.reach p = true → p ∈ s.positions
-  | .simple q t kids, p, hf, h => by
-    simp only [Stmt.inF] at hf
-    simp only [Stmt.reach, Kids.flowReach_flat kids p hf, Bool.or_false, beq_iff_eq] at h
-    simp [Stmt.positions, h]
-  | .block q b, p, hf, h => by
-    simp only [Stmt.inF] at hf
-    simp only [Stmt.reach, Bool.or_eq_true, beq_iff_eq] at h
-    rcases h with h | h
-    · simp [Stmt.positions, h]
-    · simp [Stmt.positions, Stmts.reach_mem b p hf h]
-  | .ifS q t c none, p, hf, h => by
-    simp only [Stmt.inF, Bool.and_eq_true] at hf
-    simp only [Stmt.reach, Bool.or_eq_true, beq_iff_eq, Bool.and_eq_true] at h
-    rcases h with h | ⟨_, h⟩
-    · simp [Stmt.positions, h]
-    · simp [Stmt.positions, Stmt.reach_mem c p hf.2 h]
-  | .ifS q t c (some al), p, hf, h => by
-    simp only [Stmt.inF, Bool.and_eq_true] at hf
-    simp only [Stmt.reach, Bool.or_eq_true, beq_iff_eq, Bool.and_eq_true] at h
-    rcases h with h | ⟨_, h | h⟩
-    · simp [Stmt.positions, h]
-    · simp [Stmt.positions, Stmt.reach_mem c p hf.1.2 h]
-    · simp [Stmt.positions, Stmt.reach_mem al p hf.2 h]
-  | .whileS q t tt b, p, hf, h => by
-    simp only [Stmt.inF, Bool.and_eq_true] at hf
-    simp only [Stmt.reach, Bool.or_eq_true, beq_iff_eq] at h
-    rcases h with h | h
-    · simp [Stmt.positions, h]
-    · simp [Stmt.positions, Stmt.reach_mem b p hf.2 h]
-  | .doWhileS q b t tt, p, hf, h => by
-    simp only [Stmt.inF, Bool.and_eq_true] at hf
-    simp only [Stmt.reach, Bool.or_eq_true, beq_iff_eq] at h
-    rcases h with h | h
-    · simp [Stmt.positions, h]
-    · simp [Stmt.positions, Stmt.reach_mem b p hf.2 h]
-  | .forS q i u t ht tt b, p, hf, h => by
-    simp only [Stmt.inF, Bool.and_eq_true] at hf
-    simp only [Stmt.reach, Bool.or_eq_true, beq_iff_eq] at h
-    rcases h with h | h
-    · simp [Stmt.positions, h]
-    · simp [Stmt.positions, Stmt.reach_mem b p hf.2 h]
-  | .forInOf q l r b, p, hf, h => by
-    simp only [Stmt.inF, Bool.and_eq_true] at hf
-    simp only [Stmt.reach, Bool.or_eq_true, beq_iff_eq] at h
-    rcases h with h | h
-    · simp [Stmt.positions, h]
-    · simp [Stmt.positions, Stmt.reach_mem b p hf.2 h]
-  | .brk q l, p, _, h => by simp only [Stmt.reach, beq_iff_eq] at h; simp [Stmt.positions, h]
-  | .cont q l, p, _, h => by simp only [Stmt.reach, beq_iff_eq] at h; simp [Stmt.positions, h]
-  | .ret q a, p, _, h => by simp only [Stmt.reach, beq_iff_eq] at h; simp [Stmt.positions, h]
-  | .throw q a, p, _, h => by simp only [Stmt.reach, beq_iff_eq] at h; simp [Stmt.positions, h]
-  | .switchS .., _, hf, _ => by simp [Stmt.inF] at hf
-  | .tryS .., _, hf, _ => by simp [Stmt.inF] at hf
-  | .labeled .., _, hf, _ => by simp [Stmt.inF] at hf
-theorem Stmts.reach_mem : ∀ (l : Stmts) (p : Nat), l.inF = true → l.reach p = true → p ∈ l.positions
-  | .nil, p, _, h => by simp [Stmts.reach] at h
-  | .cons s r, p, hf, h => by
-    simp only [Stmts.inF, Bool.and_eq_true] at hf
-    simp only [Stmts.reach, Bool.or_eq_true, Bool.and_eq_true] at h
-    rcases h with h | ⟨_, h⟩
-    · simp [Stmts.positions, Stmt.reach_mem s p hf.1 h]
-    · simp [Stmts.positions, Stmts.reach_mem r p hf.2 h]
-end
-
-theorem Stmt.reach_false (s : Stmt) (p : Nat) (hf : s.inF = true) (h : p ∉ s.positions) : s.reach p = false := by
-  cases hr : s.reach p with
-  | false => rfl
-  | true => exact absurd (s.reach_mem p hf hr) h
-theorem Stmts.reach_false (l : Stmts) (p : Nat) (hf : l.inF = true) (h : p ∉ l.positions) : l.reach p = false := by
-  cases hr : l.reach p with
-  | false => rfl
-  | true => exact absurd (l.reach_mem p hf hr) h
+  · intro hc; exact hy.monoT (hx.monoT hc)
+  · intro hc
+    simp only [seq_t] at hc
+    cases hxc : (live && cx.t) with
+    | true => exact hy.monoT (hx.pT hxc)
+    | false =>
+      apply hy.pT
+      revert hc hxc; cases live <;> cases cx.t <;> cases cx.n <;> simp
 
 end DL.CF
